@@ -314,6 +314,45 @@ def run(ctx):
             desc = "offset %s length %s" % (off, ln)
         r.check(okk, "BuildKey::%s|offsets" % nm, "", "simple key name read with %s" % desc, f)
 
+    rn = rep.rule("R-CODEC-NUL-SAFE", "inside the key / value / string-list / binary-coding classes no byte string is rebuilt from a bare `const char*` "
+                                      "(a C-string constructor, assignment or append stops at the first NUL byte): the only C-string sources are string literals", floor=1)
+    STRY = ("basic_string", "StringRef", "KeyType", "SmallString", "Twine", "SmallVector")
+    n_sites = 0
+    n_lit = 0
+    for f in prog.functions.values():
+        if f.is_lambda or not any(f.cls.endswith(c) for c in ("BuildKey", "BuildValue", "StringList", "BinaryEncoder", "BinaryDecoder", "KeyType")) and \
+                "BinaryCodingTraits<" not in f.cls:
+            continue
+        for n in f.nodes:
+            if n.get("k") not in ("call", "construct"):
+                continue
+            fn_ = n.get("fn") or ""
+            if not any(t in fn_ for t in STRY):
+                continue
+            pts = [f.db_types[t] for t in n.get("pt", [])]
+            # single `const char *` parameter (two pointers = iterator range: carries its own end)
+            cptr = [i for i, t in enumerate(pts) if t.replace(" ", "") in ("constchar*", "constchar*const")]
+            if len(cptr) != 1 or len([t for t in pts if "char*" in t.replace(" ", "")]) != 1:
+                continue
+            if len(pts) >= 2 and any(("size_t" in t or "unsigned long" in t or "size_type" in t) for t in pts):
+                continue            # (pointer, length) overload
+            nm = fn_.split("::")[-1]
+            if nm in ("push_back",) :
+                continue
+            a = arg_nodes(n)[cptr[0]] if cptr[0] < len(arg_nodes(n)) else None
+            if a is None:
+                continue
+            if f.cls.endswith("KeyType") and f.raw.get("ctor") and f.params and len(f.params) == 1:
+                rn.exempt("KeyType(const char*)|definition", "the C-string convenience overload itself; the rule inspects its uses inside the coding classes", f, n)
+                continue
+            n_sites += 1
+            lit = core(a) is not None and core(a).get("k") == "str"
+            n_lit += 1 if lit else 0
+            site = "%s|%s(%s)" % (f.name.split("::")[-1] if f.cls else f.name, nm, expr_str(a)[:30])
+            rn.check(lit, site, "literal", "%s rebuilds a byte string from the C string %s: bytes after an embedded NUL are lost" % (f.name, expr_str(a)[:50]), f, n)
+    if n_sites == 0:
+        rn.ok("no C-string conversions in the coding classes", "")
+
     r = rep.rule("R-VALUE-COMPARE", "the engine decides 'unchanged' by comparing the encoded value vectors", floor=1)
     f = prog.fn("BuildEngineImpl::taskIsComplete")
     cmp_ = [n for n in f.nodes if n.get("k") == "call" and n.get("op") == "==" and "result.value" in expr_str(n)]
